@@ -43,9 +43,9 @@ def ranges(draw, dur=durations, start_tod=tod_start):
     n = draw(dur)
     d1 = d0 + D.timedelta(days=n)
     t0 = draw(start_tod)
-    t1 = draw(st.one_of(st.just((23, 59, 0)), st.just(t0), tod_any.filter(lambda t: t >= t0)))
-    if t1 < t0:
-        t1 = (23, 59, 0)
+    t1 = draw(st.one_of(st.just((23, 59, 0)), st.just(t0), tod_any))
+    if tuple(t1) < tuple(t0):        # the end's time of day is never before the start's (the stated domain)
+        t1 = t0
     return [d0.year, d0.month, d0.day] + list(t0), [d1.year, d1.month, d1.day] + list(t1)
 
 
